@@ -37,8 +37,8 @@ fn mutators(id: ARID) -> Vec<(&'static str, Box<dyn Fn(&Envelope) -> Envelope + 
 pub fn run(ctx: &Ctx) -> i32 {
     let th = ctx.tier.thorough();
     let id = ARID::from_data([7u8; 32]);
-    let functions: Vec<Function> = vec![Function::from(1u64), Function::from(15u64), Function::from(100u64), Function::from(u64::MAX), Function::from("add"), Function::from("foo"), Function::from("")];
-    let params: Vec<Parameter> = vec![Parameter::from(1u64), Parameter::from(2u64), Parameter::from("lhs"), Parameter::from("x")];
+    let functions: Vec<Function> = vec![Function::from(1u64), Function::from(15u64), Function::from(100u64), Function::from(u64::MAX), Function::from("add"), Function::from("foo"), Function::from(""), Function::new_static_named("verifySignature"), Function::new_known(7, Some("seven".to_string())), Function::new_named("verifySignature")];
+    let params: Vec<Parameter> = vec![Parameter::from(1u64), Parameter::from(2u64), Parameter::from("lhs"), Parameter::from("x"), Parameter::new_static_named("blob"), Parameter::new_known(3, Some("three".to_string()))];
     let values: Vec<Envelope> = vec![Envelope::new(1), Envelope::new("t"), Envelope::new(-5), Envelope::new(1.5), Envelope::new(true), Envelope::new(known_values::NOTE), Envelope::new("w").wrap_envelope(), Envelope::new("n").add_assertion("a", "b"), Envelope::new_assertion("p", "o"), Envelope::new("e").elide(), Envelope::new("c").compress().unwrap(), Envelope::new(CBOR::to_byte_string([1u8, 2])), Envelope::null()];
     let notes = ["", "n"];
     let dates: Vec<Option<Date>> = vec![None, Some(Date::from_timestamp(0.0)), Some(Date::from_timestamp(1.5)), Some(Date::from_timestamp(-1.5)), Some(Date::from_timestamp(1720091471.0)), Some(Date::from_timestamp(1720091471.123)), Some(Date::from_timestamp(253402300799.0))];
@@ -48,7 +48,7 @@ pub fn run(ctx: &Ctx) -> i32 {
     for p in 0..params.len() { for v in 0..values.len() { plists.push(vec![(p, v)]) } }
     for p in 0..params.len() { for v in [0usize, 7, 9] { for p2 in 0..params.len() { for v2 in [1usize, 8, 0] { plists.push(vec![(p, v), (p2, v2)]) } } } }
     if maxp >= 3 { for p in 0..params.len() { for p2 in 0..params.len() { for p3 in 0..params.len() { plists.push(vec![(p, 0), (p2, 1), (p3, 7)]); plists.push(vec![(p, 0), (p2, 0), (p3, 0)]) } } } }
-    let acc = functions.par_iter().enumerate().map(|(fi, f)| {
+    let acc = functions.par_iter().enumerate().with_max_len(1).map(|(fi, f)| {
         let mut acc = Acc::new();
         for (pi, pl) in plists.iter().enumerate() {
             let cid = |s: &str| format!("fn{fi}/plist{pi}/{s}");
